@@ -397,4 +397,22 @@ PROPS = {
         rule="5 feature-set builds; 40 (quick) / 300 (thorough) rounds x 9 state types (f32/f64) reached by random programs of up to 30-150 operations + a "
              "Confidence and an Interval per round; distinct by sha1 of the program",
     ),
+    "C10": dict(
+        modules=["StatsCI.Properties.C10"],
+        anchors=["src/mean.rs", "src/comparison.rs", "src/proportion.rs", "src/quantile.rs", "src/stats.rs", "src/confidence.rs"],
+        needs_crit=True, exact_ops=set(),
+        technique="Lean 4 theorems (one-sided vs two-sided request identity, nesting in the level, containment of the estimate, kind of the result, for all eight producers) + relations checked on pairs of the implementation's intervals",
+        level_text="Kernel-checked theorems over the model for all eight producers (arithmetic, geometric, harmonic, paired, unpaired, Wilson, Wald, quantile ranks): a "
+                   "one-sided request at L and the two-sided request at 2L-1 ask the external routine for the same quantile and return the same finite bound (every "
+                   "state, every oracle, including errors and panics); for an oracle monotone in p, intervals of the same kind are nested in the level; a two-sided "
+                   "interval, or a one-sided one whose critical value is >= 0 (level >= 1/2 for an oracle vanishing at 1/2), contains the point estimate (ranks bracket "
+                   "round(q n)); the constructor of the result is determined by the kind of the confidence (proportions: two-sided with far end exactly 1 / 0). "
+                   "Harmonic statements need the reciprocal-space bounds used to be positive (otherwise the bound is +inf by construction). The relations are "
+                   "re-checked on the implementation for pairs of levels per data set, f32 and f64.",
+        level_note="Trusted: Lean kernel + 3 standard axioms; 'the external quantile is increasing in p and 0 at 1/2' is an explicit hypothesis of the theorems, "
+                   "validated numerically for statrs by these very relations (and by C06). One-sided L vs two-sided 2L-1 agree on floats only up to the rounding of "
+                   "1-(1-(2L-1))/2 (tolerance scaled with the conditioning of the inverse CDF; rank bounds may differ by one position).",
+        rule="25 (quick) / 120 (thorough) data sets per producer x 4 / 12 level pairs of each of two shapes (one-sided L vs two-sided 2L-1; same kind L1 < L2 in "
+             "[0.001, 0.9999]) x f64 (all producers) and f32 (mean-type producers); distinct by sha1 of the input",
+    ),
 }
